@@ -435,7 +435,27 @@ class World:
                 gc.collect()
         res = None
         self.steps.append((op, req, out, self.dump(), before))
+        if out[0] != "hang" and op.uid % 3 == 0 and self.objs:
+            self.readonly_probe(op)
         return out
+
+    def readonly_probe(self, op: Op) -> None:
+        """read-only library calls between the operations of a history (traversals, `children`, ancestors): they have no
+        effect the invariant or the frame could see; whatever they leave behind inside the library (memoised lists, cached
+        paths) must not make a LATER operation or query answer from a stale state.  Deterministic in the history."""
+        picks = []
+        if op.recv is not None and self.obj(op.recv) is not None:
+            picks.append(self.obj(op.recv))
+        picks.append(self.objs[op.uid % len(self.objs)])
+        for o in picks:
+            for call in (lambda: list(o.dfs()), lambda: list(o.gather(AwareASTNode)), lambda: list(o.children),
+                         lambda: list(o.bfs()), lambda: list(o.ancestors()), lambda: list(o.dfs(bottom_up=True))):
+                try:
+                    guarded(call)
+                except Hang:
+                    return
+                except Exception:  # noqa: BLE001
+                    pass
 
     # ---- observation
     def _idc(self, s):
